@@ -223,7 +223,12 @@ def _kernel_info(db, chk, cs, rule="C13.R1-kernel-info"):
     want = {"num_kernels": "count", "kernel_dur_sum": "sum_dur", "kernel_span": "kernel_span", "first_kernel_start": "first_start", "last_kernel_end": "last_end"}
     chk.ob(rule, "each stack column is written from the like-meaning field of the kernel info", pairs == want, where, found=pairs, accepted=want, why="a swapped pair reports e.g. the span as the duration sum")
     nt = [c for c in ast.walk(fn) if isinstance(c, ast.Call) and H.name_id(c.func) == "namedtuple"]
-    chk.ob(rule, "KernelInfo field order", len(nt) == 1 and lit(nt[0].args[1]) == "count sum_dur kernel_span first_start last_end", where, found=[ast.unparse(x) for x in nt], accepted="count sum_dur kernel_span first_start last_end")
+    order = [lit(x.args[1]) for x in nt if len(x.args) > 1]
+    # ... or a NamedTuple class of the module whose instances the function builds
+    for cname, cdef in cs.classes.items():
+        if any(isinstance(b, ast.Name) and b.id == "NamedTuple" for b in cdef.bases) and any(isinstance(c, ast.Call) and H.name_id(c.func) == cname for c in ast.walk(fn)):
+            order.append(" ".join(st_.target.id for st_ in cdef.body if isinstance(st_, ast.AnnAssign) and isinstance(st_.target, ast.Name)))
+    chk.ob(rule, "KernelInfo field order", (order == ["count sum_dur kernel_span first_start last_end"]) if order else None, where, found=order, accepted="count sum_dur kernel_span first_start last_end")
     chk.floor(rule, 7)
 
 
